@@ -18,6 +18,7 @@ from vf import shim, gen
 from vf.engine import Run, model_view, diff_views
 from vf.indep import iso9660
 from vf.indep.views import iso_views
+from vf.model import content
 from vf.propbase import EngineProperty
 from vf.runner import exc_signature
 from vf.props.c03 import CLAUSES
@@ -46,7 +47,8 @@ def strategy(tier):
     cfg = gen.cfg_st(joliet=st.sampled_from([1, 2, 3, 3]))
     w = {'mixed': 4, 'growshrink': 3, 'deep': 1, 'links': 3, 'boot': 1, 'hybrid': 0}
     progs = st.one_of(gen.mixed(True, cfg), gen.growshrink(cfg, True), gen.links(cfg, True), gen.mixed(False, cfg, 8, 40), gen.boot(cfg), gen.deep(cfg), gen.samename(cfg, True), gen.samename(cfg, True), gen.readd(cfg, True), gen.exactfill(gen.cfg_st(joliet=st.sampled_from([1, 2, 3, 3]), rr=st.just(None), xa=st.just(False)), True), gen.exactfill(gen.cfg_st(joliet=st.sampled_from([1, 2, 3, 3]), rr=st.just(None), xa=st.just(False)), False))
-    return st.tuples(st.one_of(progs, progs, PROBE), st.none())
+    MODAUX = st.one_of(st.none(), st.none(), st.fixed_dictionaries({'mod': st.fixed_dictionaries({'i': st.integers(0, 999), 'len': st.sampled_from(['same', 'one-less', 'full', 'first'])})}))
+    return st.tuples(st.one_of(progs, progs, PROBE), MODAUX)
 
 
 def probe_name(units, alpha):
@@ -133,23 +135,57 @@ def oracle(program, aux):
         run.close()
         return run, failures
     m = run.model
+    if not check_image(run, img, failures, ''):
+        run.close()
+        return run, failures
+    mod = (aux or {}).get('mod') if isinstance(aux, dict) else None
+    if mod and not failures:
+        # a last edit of another kind: replace one file's content in place in the written image file (same number of
+        # sectors) and read the Joliet tree of *that file* again
+        cands = sorted(p for p, e in m.t['iso'].items() if e['type'] == 'file' and e.get('blob') in m.blobs and not m.blobs[e['blob']].catalog
+                       and not m.blobs[e['blob']].bit and not m.blobs[e['blob']].boot_refs and 0 < m.blobs[e['blob']].length <= (1 << 20)
+                       and any(ns == 'jol' for ns, _ in m.blobs[e['blob']].names))
+        if cands:
+            path = cands[mod['i'] % len(cands)]
+            blob = m.blobs[m.t['iso'][path]['blob']]
+            nsec = (blob.length + 2047) // 2048
+            nl = {'same': blob.length, 'one-less': max((nsec - 1) * 2048 + 1, blob.length - 1), 'full': nsec * 2048, 'first': (nsec - 1) * 2048 + 1}[mod['len']]
+            backing = io.BytesIO(img)
+            iso = pycdlib.PyCdlib()
+            try:
+                iso.open_fp(backing)
+                cid = 800000 + blob.id
+                iso.modify_file_in_place(io.BytesIO(content(cid, nl)), nl, path)
+                iso.close()
+            except Exception as e:  # noqa
+                failures.append(('C09/modify-in-place/' + exc_signature(e), 'joliet-tree', 'modify_file_in_place(%r, %d -> %d bytes) raised %s: %s' % (path[:60], blob.length, nl, type(e).__name__, e)))
+                run.close()
+                return run, failures
+            blob.length, blob.cid, blob.ckind = nl, cid, 0
+            m.classes.add('modified-in-place')
+            check_image(run, backing.getvalue(), failures, 'after-modify-in-place/')
+    run.close()
+    return run, failures
+
+
+def check_image(run, img, failures, tag):
+    m = run.model
     info = iso9660.read_iso(img)
     run.info = info
     jsvd = [s for s in info.get('svds', []) if s.get('kind') == 'joliet']
     if not jsvd:
-        failures.append(('C09/no-joliet-descriptor', 'svd', 'no supplementary descriptor with a Joliet escape sequence'))
-        run.close()
-        return run, failures
+        failures.append(('C09/%sno-joliet-descriptor' % tag, 'svd', 'no supplementary descriptor with a Joliet escape sequence'))
+        return False
     if m.generation == 0 and jsvd[0]['escape'][:3] != ESC[run.cfg['joliet']]:
-        failures.append(('C09/escape-sequence', 'svd', 'Joliet level %d asked for, escape sequence is %r' % (run.cfg['joliet'], jsvd[0]['escape'][:3])))
+        failures.append(('C09/%sescape-sequence' % tag, 'svd', 'Joliet level %d asked for, escape sequence is %r' % (run.cfg['joliet'], jsvd[0]['escape'][:3])))
     for clause, msg in info['findings']:
         if clause in CLAUSES and msg.startswith('joliet:'):
-            failures.append(('C09/%s' % clause, clause, msg[:500]))
+            failures.append(('C09/%s%s' % (tag, clause), clause, msg[:500]))
     got = iso_views(img, info)
     want = model_view(m)
     for ns, path, a, b in diff_views({'jol': got.get('jol')}, {'jol': want.get('jol')}):
         kind = 'missing' if a is None else ('extra' if b is None else ('type' if a[0] != b[0] else ('hidden' if a[3] != b[3] else 'content')))
-        failures.append(('C09/tree/%s/%s' % (kind, m.role('jol', path)), 'joliet-tree',
+        failures.append(('C09/%stree/%s/%s' % (tag, kind, m.role('jol', path)), 'joliet-tree',
                          'Joliet path %r: independent reader finds %r, the edits imply %r' % ((path or '')[:90], a, b)))
     # shared data sectors with the ISO9660 link of the same content
     it = info['trees'].get('iso') or {}
@@ -163,9 +199,8 @@ def oracle(program, aux):
             if t is not None and p in t:
                 ext.add(t[p]['extent'])
         if len(ext) > 1:
-            failures.append(('C09/joliet-file-not-sharing-iso-extent', 'shared-data', 'names %r of one content point at sectors %r' % (sorted(b.names)[:3], sorted(ext))))
-    run.close()
-    return run, failures
+            failures.append(('C09/%sjoliet-file-not-sharing-iso-extent' % tag, 'shared-data', 'names %r of one content point at sectors %r' % (sorted(b.names)[:3], sorted(ext))))
+    return True
 
 
 def extra_classes(run):
